@@ -1,12 +1,14 @@
 //! vh - the Rust side of the correspondence checks.  Each subcommand runs the REAL
 //! amiquip code on generated / enumerated / corpus cases and writes what it did as
 //! Coq terms (case files) for the model and the property oracle to judge.
+mod c06;
 mod c10;
 mod c14;
 mod c15;
 mod consts;
 mod coqfmt;
 mod rng;
+mod wire;
 
 pub struct Args {
     pub seed: u64,
@@ -66,6 +68,7 @@ fn main() {
     }
     match argv[1].as_str() {
         "consts" => consts::run(),
+        "c06" => c06::run(&a),
         "c10" => c10::run(&a),
         "c14" => c14::run(&a),
         "c15" => c15::run(&a),
